@@ -17,6 +17,7 @@ import (
 	"unicode"
 
 	"github.com/samsarahq/thunder/sqlgen"
+	"vrt/rt"
 )
 
 type Stmt struct {
@@ -44,6 +45,8 @@ type DB struct {
 	Log      []Stmt
 	OnCommit func(changes []Change)
 	FailNext error // the next statement fails with this error
+	// SlowSelect: a SELECT is in flight for one scheduling step before it reads the table
+	SlowSelect bool
 	pending  []Change
 	inTx     bool
 	snapshot map[string][][]driver.Value
@@ -600,6 +603,9 @@ func (d *DB) exec(s string, args []driver.Value) (driver.Result, error) {
 	ps, err := Parse(s, args)
 	if err != nil {
 		return nil, err
+	}
+	if d.SlowSelect && ps.Kind == "SELECT" {
+		rt.Yield()
 	}
 	t := d.Tables[ps.Table]
 	if t == nil {
